@@ -21,15 +21,17 @@
    indentation family (`C01_python`).
    FORMAL GRAMMAR (Scope/Grammar.v, Scope/GrammarProofs*.v): for the C family a token-level
    canonical grammar is formalised and every program it generates is proved to satisfy both
-   hypotheses: `C01_grammar_cpp`, `C01_grammar_c` are unconditional on the descriptor side.
-   MISSING: the same for the other languages' grammars (Java/C#/JS/TS/Python use the
-   hypothesis form, validated per generated program), brace groups inside parameter lists,
-   and the lexers themselves (oracles under the C16 contract).
+   hypotheses: `C01_grammar_cpp`, `C01_grammar_c` are unconditional on the descriptor side; Scope/GrammarAll.v
+   and Scope/GrammarAllProofs*.v do the same for all six brace languages (`C01_grammar_brace`).
+   Scope/PyGrammar.v and Scope/PyGrammarProofs*.v do it for Python (`C01_grammar_python`).
+   MISSING: constructs the formal grammars leave out (brace groups inside parameter lists, multi-line Python
+   headers and backslash continuations: covered in the hypothesis form and by the generator only), and the
+   lexers themselves (oracles under the C16 contract).
    Proofs: Scope/SpecProofs{Dyck,Pairing,Fold,Count,}.v, Scope/HeaderProofs{Dfa,Select,}.v. *)
 From Verif Require Import Base Token Lex LexProofs Headers Blocks Pairing Fold ScanFile Spec
   SpecProofsDyck SpecProofsPairing SpecProofsFold SpecProofsCount SpecProofs
   Regex TokEngine HeaderSpec HeaderProofsDfa HeaderProofsSelect HeaderProofs SpecCheck
-  LexShapes ShapeProofs PySpec PySpecProofsLines PySpecProofs PySpecCheck PyLexical GenCompare TieProofs Grammar GrammarProofs.
+  LexShapes ShapeProofs PySpec PySpecProofsLines PySpecProofs PySpecCheck PyLexical GenCompare TieProofs Grammar GrammarProofs GrammarAll GrammarAllProofsWf GrammarAllProofs PyGrammar PyGrammarProofs.
 From Coq Require Import Sorted Permutation.
 
 Theorem C01_brace_pipeline_partial : forall (l : language) toks ds,
@@ -159,6 +161,27 @@ Proof.
   intros E; subst nested. exact (canonical_flat ts ds H).
 Qed.
 
+(* ---- the same for ALL SIX brace languages (Scope/GrammarAll.v: the documented header forms of each language —
+        plain, Java `throws`, JavaScript/TypeScript `[function] name`, TypeScript return type, arrow functions) ---- *)
+Theorem C01_grammar_brace : forall (l : language) toks ds, l <> LPython ->
+  let code := filter_tokens false toks in
+  canonical_program_of l code ds -> StronglySorted pos_lt code -> filter_nocl_comment_tokens toks = [] ->
+  scan_file l toks = expected_all code ds ds.
+Proof. exact C01_brace_grammar. Qed.
+Theorem C01_grammar_brace_meets_hypotheses : forall l ts ds, l <> LPython -> canonical_program_of l ts ds ->
+  wf_descs ts ds /\ lexically_canonical_of l ts ds.
+Proof. intros l ts ds Hl H. split; [exact (canonical_of_wf l ts ds Hl H)|exact (canonical_of_lexical l ts ds Hl H)]. Qed.
+
+(* ---- and for Python (Scope/PyGrammar.v: blocks of lines at one indentation; a definition line `[async] def name (...)+ ...`
+        followed by a deeper block is a function with that block as its suite; physical lines, no continuation) ---- *)
+Theorem C01_grammar_python : forall toks ds, let code := filter_tokens false toks in
+  py_canonical_program code ds -> StronglySorted pos_lt code -> filter_nocl_comment_tokens toks = [] ->
+  scan_file LPython toks = py_expected_all code ds ds.
+Proof. exact C01_python_grammar. Qed.
+Theorem C01_grammar_python_meets_hypotheses : forall ts ds, py_canonical_program ts ds ->
+  py_wf_descs ts ds /\ py_lexically_canonical ts ds.
+Proof. intros ts ds H. split; [exact (py_canonical_wf ts ds H)|exact (py_canonical_lexical ts ds H)]. Qed.
+
 (* ---- the comparison operators of the hand-written scope model are the ones the source states: each is equal to
         the definition regenerated from TokenRange.py / Scope.py / scope_utils.py / Python.py on this run ---- *)
 Theorem C01_operators_tied :
@@ -208,6 +231,10 @@ Print Assumptions C01_operators_tied.
 Print Assumptions C01_grammar_cpp.
 Print Assumptions C01_grammar_c.
 Print Assumptions C01_grammar_meets_hypotheses.
+Print Assumptions C01_grammar_brace.
+Print Assumptions C01_grammar_brace_meets_hypotheses.
+Print Assumptions C01_grammar_python.
+Print Assumptions C01_grammar_python_meets_hypotheses.
 Print Assumptions C01_python.
 Print Assumptions C01_python_blocks.
 Print Assumptions C01_python_hypotheses_decidable.
